@@ -57,7 +57,30 @@ def where_am_i():
     return " <- ".join(out[:6])
 
 
+_orig_deepcopy = torch.Tensor.__deepcopy__
+
+
+def _shadow_deepcopy(self, memo):
+    """copy.deepcopy of a plain tensor copies its storage below the dispatcher: carry the shadow along"""
+    new = _orig_deepcopy(self, memo)
+    try:
+        if isinstance(new, torch.Tensor) and new is not self and SH.has(self) and not SH.has(new) \
+                and new.layout == torch.strided and new.shape == self.shape:
+            SH.put(new.data if isinstance(new, torch.nn.Parameter) else new, SH.get(self), check=True)
+    except HarnessError:
+        raise
+    return new
+
+
 class SymMode(TorchDispatchMode):
+    def __enter__(self):
+        torch.Tensor.__deepcopy__ = _shadow_deepcopy
+        return super().__enter__()
+
+    def __exit__(self, *a):
+        torch.Tensor.__deepcopy__ = _orig_deepcopy
+        return super().__exit__(*a)
+
     def __torch_dispatch__(self, func, types, args=(), kwargs=None):
         kwargs = kwargs or {}
         STATS["ops"] += 1
